@@ -53,7 +53,7 @@ Theorem C16_no_prefix : forall b, starts_with xssi_prefix b = false -> parse_res
 Proof. exact parse_response_unprefixed. Qed.
 Theorem C16_prefix :
   forall b, starts_with xssi_prefix b = false -> parse_response (xssi_prefix ++ b) = parse_response b.
-Proof. intros b H. rewrite parse_response_prefixed, parse_response_unprefixed by assumption. reflexivity. Qed.
+Proof. exact c16_prefix_proof. Qed.
 Theorem C16_only_one_prefix : forall b, parse_response (xssi_prefix ++ xssi_prefix ++ b) = None.
 Proof. exact parse_response_double_prefix. Qed.
 
@@ -66,7 +66,9 @@ Proof. exact parse_print. Qed.
    record (any number of apps, any field subset, any status, cohort fields
    absent/empty/non-empty, sizes up to 2^64-1, extension attributes of any
    printable JSON shape), with or without the prefix; wf_doc = strings are valid
-   UTF-8, integers in range, extension keys distinct from protocol keys,
+   UTF-8, integers in range (day counts < 2^32, sizes < 2^64, integers inside
+   extension values in u64 or negative i64 — what serde_json::Value stores
+   exactly), no float placeholder, extension keys distinct from protocol keys,
    extension values within the nesting limit, Error statuses not spelled like a
    known status.  to_response d is d's body itself: equality of records is
    equality of every field. *)
@@ -86,12 +88,12 @@ Proof. exact package_roundtrip. Qed.
 Theorem C16_status :
   forall s, dec_status (JStr true s) = Some (status_of_string s) /\
             (known_status s = false -> status_of_string s = SError s).
-Proof. intro s. split; [reflexivity|apply status_unknown_preserved]. Qed.
+Proof. exact c16_status_proof. Qed.
 Theorem C16_status_error_iff : forall s, (exists e, status_of_string s = SError e) <-> known_status s = false.
 Proof. exact status_error_iff. Qed.
 Theorem C16_status_not_a_string :
   forall j, (forall s, j <> JStr true s) -> dec_status j = None.
-Proof. intros j H. destruct j as [| | | |[|] s| |]; try reflexivity. exfalso. apply (H s). reflexivity. Qed.
+Proof. exact c16_status_not_a_string_proof. Qed.
 
 (* ---- full URLs: every codebase joined with every package name, codebase-major ---- *)
 Theorem C16_full_urls :
@@ -100,9 +102,7 @@ Theorem C16_full_urls :
     length (full_urls u) = (length (codebases u) * length (packages u))%nat /\
     (forall i j c p, nth_error (codebases u) i = Some c -> nth_error (packages u) j = Some p ->
                      nth_error (full_urls u) (i * length (packages u) + j) = Some (c ++ pk_name p)).
-Proof.
-  intro u. split; [apply full_urls_in|]. split; [apply full_urls_length|apply full_urls_nth].
-Qed.
+Proof. exact c16_full_urls_proof. Qed.
 
 (* ---- required fields and wrong types ---- *)
 (* For ANY object kvs: deleting a required key, or giving it a value its
@@ -113,7 +113,7 @@ Theorem C16_required_wrapper :
   forall kvs v,
     decode_wrapper (JObj (remove_key (nm "response") kvs)) = None /\
     (decode_response v = None -> decode_wrapper (JObj (retype (nm "response") v kvs)) = None).
-Proof. intros. split; [apply wrapper_required_removed; cbn; tauto|apply wrapper_retyped_response]. Qed.
+Proof. exact c16_required_wrapper_proof. Qed.
 
 Theorem C16_required_response :
   forall kvs v,
@@ -121,10 +121,7 @@ Theorem C16_required_response :
     decode_response (JObj (remove_key (nm "app") kvs)) = None /\
     (dec_string v = None -> decode_response (JObj (retype (nm "protocol") v kvs)) = None) /\
     (dec_list decode_app v = None -> decode_response (JObj (retype (nm "app") v kvs)) = None).
-Proof.
-  intros. repeat split; try (apply response_required_removed; cbn; tauto);
-    [apply response_retyped_protocol|apply response_retyped_app].
-Qed.
+Proof. exact c16_required_response_proof. Qed.
 
 Theorem C16_required_app :
   forall kvs v,
@@ -132,22 +129,19 @@ Theorem C16_required_app :
     decode_app (JObj (remove_key (nm "status") kvs)) = None /\
     (dec_string v = None -> decode_app (JObj (retype (nm "appid") v kvs)) = None) /\
     (dec_status v = None -> decode_app (JObj (retype (nm "status") v kvs)) = None).
-Proof.
-  intros. repeat split; try (apply app_required_removed; cbn; tauto);
-    [apply app_retyped_appid|apply app_retyped_status].
-Qed.
+Proof. exact c16_required_app_proof. Qed.
 
 Theorem C16_required_ping_event :
   forall kvs v,
     decode_status_struct (JObj (remove_key (nm "status") kvs)) = None /\
     (dec_status v = None -> decode_status_struct (JObj (retype (nm "status") v kvs)) = None).
-Proof. intros. split; [apply status_struct_required_removed; cbn; tauto|apply status_struct_retyped_status]. Qed.
+Proof. exact c16_required_ping_event_proof. Qed.
 
 Theorem C16_required_update_check :
   forall kvs v,
     decode_update_check (JObj (remove_key (nm "status") kvs)) = None /\
     (dec_status v = None -> decode_update_check (JObj (retype (nm "status") v kvs)) = None).
-Proof. intros. split; [apply update_check_required_removed; cbn; tauto|apply update_check_retyped_status]. Qed.
+Proof. exact c16_required_update_check_proof. Qed.
 
 Theorem C16_required_urls :
   forall kvs v,
@@ -155,13 +149,7 @@ Theorem C16_required_urls :
     decode_url (JObj (remove_key (nm "codebase") kvs)) = None /\
     (dec_list decode_url v = None -> decode_urls (JObj (retype (nm "url") v kvs)) = None) /\
     (dec_string v = None -> decode_url (JObj (retype (nm "codebase") v kvs)) = None).
-Proof.
-  intros. repeat split.
-  - apply urls_required_removed; cbn; tauto.
-  - apply url_required_removed; cbn; tauto.
-  - apply urls_retyped_url.
-  - apply url_retyped_codebase.
-Qed.
+Proof. exact c16_required_urls_proof. Qed.
 
 Theorem C16_required_manifest :
   forall kvs v,
@@ -175,16 +163,7 @@ Theorem C16_required_manifest :
     decode_packages (JObj (remove_key (nm "package") kvs)) = None /\
     (dec_list decode_action v = None -> decode_actions (JObj (retype (nm "action") v kvs)) = None) /\
     (dec_list decode_package v = None -> decode_packages (JObj (retype (nm "package") v kvs)) = None).
-Proof.
-  intros. repeat split; try (apply manifest_required_removed; cbn; tauto).
-  - apply manifest_retyped_version.
-  - apply manifest_retyped_actions.
-  - apply manifest_retyped_packages.
-  - apply actions_required_removed; cbn; tauto.
-  - apply packages_required_removed; cbn; tauto.
-  - apply actions_retyped_action.
-  - apply packages_retyped_package.
-Qed.
+Proof. exact c16_required_manifest_proof. Qed.
 
 Theorem C16_required_package :
   forall kvs v,
@@ -194,33 +173,20 @@ Theorem C16_required_package :
     (dec_string v = None -> decode_package (JObj (retype (nm "name") v kvs)) = None) /\
     (dec_bool v = None -> decode_package (JObj (retype (nm "required") v kvs)) = None) /\
     (dec_string v = None -> decode_package (JObj (retype (nm "fp") v kvs)) = None).
-Proof.
-  intros. repeat split; try (apply package_required_removed; cbn; tauto).
-  - apply package_retyped_name.
-  - apply package_retyped_required.
-  - apply package_retyped_fp.
-Qed.
+Proof. exact c16_required_package_proof. Qed.
 
 (* a refused (non-null) value of an optional field rejects as well: the 64-bit size *)
 Theorem C16_size_is_u64 :
   forall kvs n,
     get_field (nm "size") kvs = Some (Some (JInt false n)) ->
     2 ^ 64 <= n -> decode_package (JObj kvs) = None.
-Proof.
-  intros kvs n H Hn. apply (package_field_size _ _ H). apply opt_fail; [discriminate|].
-  unfold dec_u64, dec_uint. replace (n <? 2 ^ 64) with false by (symmetry; apply N.ltb_ge; assumption). reflexivity.
-Qed.
+Proof. exact c16_size_is_u64_proof. Qed.
 
 (* a failing element fails the list; with the per-field lemmas this lifts a
    failure anywhere in the nesting to the whole document *)
 Theorem C16_list_fails :
   forall A (dec : json -> option A) l x, In x l -> dec x = None -> dec_list dec (JArr l) = None.
-Proof.
-  intros A dec l x Hin Hd. unfold dec_list. induction l as [|y r IH]; [contradiction|].
-  cbn [map all_some]. destruct Hin as [->|Hin].
-  - rewrite Hd. reflexivity.
-  - rewrite (IH Hin). destruct (dec y); reflexivity.
-Qed.
+Proof. exact c16_list_fails_proof. Qed.
 
 (* bytes level: on the print of a well-formed tree, the parser is the decoder *)
 Theorem C16_parse_print_is_decode :
@@ -246,6 +212,28 @@ Example C16_ex_parse :
   | _ => False
   end.
 Proof. vm_compute. repeat split. Qed.
+
+Definition ex_abstract : doc :=
+  {| d_xssi := true;
+     d_body := {| r_protocol := s2b "3.0"; r_server := None;
+                  r_daystart := Some {| ds_days := Some 4294967295; ds_seconds := None |};
+                  r_apps := [ {| ra_id := s2b "a"; ra_status := SError (s2b "error-unknownApplication");
+                                 ra_cohort := {| c_id := Some []; c_hint := None; c_name := Some (s2b "st""able") |};
+                                 ra_ping := Some SOk; ra_events := Some [SNoUpdate];
+                                 ra_update_check :=
+                                   Some {| uc_status := SOk; uc_info := None; uc_urls := Some [s2b "http://u/"];
+                                           uc_manifest :=
+                                             Some {| mf_version := s2b "1"; mf_actions := [];
+                                                     mf_packages :=
+                                                       [ {| pk_name := s2b "p"; pk_required := false;
+                                                            pk_size := Some 18446744073709551615; pk_hash := None;
+                                                            pk_hash_sha256 := None; pk_fp := s2b "f";
+                                                            pk_extra := [(s2b "x", JArr [JInt true 5; JNull])] |} ] |};
+                                           uc_extra := [(s2b "urgent_update", JBool true)] |};
+                                 ra_extra := [(s2b "k", JObj [(s2b "n", true, JStr true [195; 169])])] |} ] |} |}.
+Example C16_ex_roundtrip :
+  wf_doc ex_abstract = true /\ parse_response (print_doc ex_abstract) = Some (to_response ex_abstract).
+Proof. vm_compute. split; reflexivity. Qed.
 
 Example C16_ex_rejects :
   parse_response (s2b "{""response"":{""protocol"":""3.0""}}") = None /\                       (* app missing *)
